@@ -33,6 +33,68 @@ const SOURCES: &[&str] = &[
 ];
 const CONFIGS: &[&str] = &["max_width = 40\n", "tab_spaces = 2\n", "hard_tabs = true\n", "max_width = 60\nfn_call_width = 20\n", "reorder_imports = false\n", "newline_style = \"Unix\"\n"];
 
+const API_LOCALS: &[&str] = &["max_width=40", "tab_spaces=2", "hard_tabs=true", "max_width=60,fn_call_width=20", "reorder_imports=false", "style_edition=2024", "brace_style=AlwaysNextLine"];
+
+fn kv(s: Option<&str>) -> crate::fmt::Opts {
+    s.map(|s| s.split(',').filter_map(|p| p.split_once('=')).map(|(k, v)| (k.to_string(), v.to_string())).collect()).unwrap_or_default()
+}
+
+/// Several inputs in one `Session` (every order): each input's text and report equal those of a
+/// session of its own; the summary flags after the sequence are the OR of the single flags; a
+/// local configuration swapped in for one input does not leak into the next.
+fn run_api_session(case: &Value) -> Outcome {
+    use crate::fmt::{format_sequence, Opts, SeqOut};
+    let mut base: Opts = kv(case["base"].as_str());
+    if case["diagnostics"].as_bool() == Some(true) {
+        base.push(("error_on_line_overflow".into(), "true".into()));
+        base.push(("error_on_unformatted".into(), "true".into()));
+    }
+    let steps: Vec<(String, Option<Opts>)> = case["steps"].as_array().map(|a| a.iter().map(|s| (s["src"].as_str().unwrap_or("").to_string(), s["local"].as_str().map(|l| kv(Some(l))))).collect()).unwrap_or_default();
+    if steps.len() < 2 {
+        return Outcome::skip("too-few-steps");
+    }
+    // references: every input in a session of its own
+    let single: Vec<SeqOut> = steps.iter().map(|st| format_sequence(std::slice::from_ref(st), &base).into_iter().next().unwrap_or_default()).collect();
+    if single.iter().any(|s| s.panicked) {
+        return Outcome::skip("panic-is-C16's-subject");
+    }
+    let mut o = Outcome::pass();
+    o.labels.push(format!("api-session:steps:{}", steps.len()));
+    let distinct_cfg = steps.iter().filter(|s| s.1.is_some()).count();
+    let any_err = single.iter().any(|s| s.flags_after.1);
+    o.nontrivial = distinct_cfg >= 1 || any_err;
+    if distinct_cfg > 0 {
+        o.labels.push("api-session:local-config".into());
+    }
+    if any_err {
+        o.labels.push("api-session:with-parse-failure".into());
+    }
+    let or = |a: (bool, bool, bool, bool, bool, bool), b: (bool, bool, bool, bool, bool, bool)| (a.0 || b.0, a.1 || b.1, a.2 || b.2, a.3 || b.3, a.4 || b.4, a.5 || b.5);
+    for perm in permutations(steps.len(), 24) {
+        let seq: Vec<(String, Option<Opts>)> = perm.iter().map(|&i| steps[i].clone()).collect();
+        let got = format_sequence(&seq, &base);
+        if got.len() != seq.len() || got.iter().any(|g| g.panicked) {
+            return Outcome::skip("panic-is-C16's-subject");
+        }
+        let mut acc = (false, false, false, false, false, false);
+        for (k, &i) in perm.iter().enumerate() {
+            let (g, s) = (&got[k], &single[i]);
+            let describe = || format!("order {perm:?}, position {k} (input {i}): {:?} under local {:?}, base {base:?}\n--- alone ---\n{}\n--- in the session ---\n{}", steps[i].0, steps[i].1, s.text, g.text);
+            if g.text != s.text {
+                return Outcome::fail("api-session:text-depends-on-history", describe()).nontrivial(true);
+            }
+            if g.errors != s.errors || g.err != s.err {
+                return Outcome::fail("api-session:report-depends-on-history", format!("{}\nalone: {:?} {:?}\nin the session: {:?} {:?}", describe(), s.errors, s.err, g.errors, g.err)).nontrivial(true);
+            }
+            acc = or(acc, s.flags_after);
+            if g.flags_after != acc {
+                return Outcome::fail("api-session:flags-not-the-or-of-single-flags", format!("{}\nflags after this step {:?}, OR of the single-session flags {:?}", describe(), g.flags_after, acc)).nontrivial(true);
+            }
+        }
+    }
+    o
+}
+
 fn write_all(dir: &Path, files: &[F]) {
     let _ = std::fs::remove_dir_all(dir);
     for f in files {
@@ -104,17 +166,29 @@ impl Property for C15 {
     fn params(&self, tier: Tier) -> Params {
         Params {
             cases: match tier {
-                Tier::Quick => 200,
-                Tier::Thorough => 6_000,
+                Tier::Quick => 600,
+                Tier::Thorough => 18_000,
             },
             max_bytes: 128,
             timeout: Duration::from_secs(180),
         }
     }
     fn rule(&self) -> &'static str {
-        "generated sets of 1..5 source files (unformatted, formatted, failing to parse, comment-only) in a directory layout with 0..3 local rustfmt.toml files (sibling directories and a directory nested below another one that has its own configuration); the real binary runs (a) on every file alone (stdout and files mode) as the reference, (b) on every order of the files on one command line (all permutations up to 24), (c) twice with the same command, (d) with the source on standard input from the file's directory, (e) from another working directory with absolute paths and with a perturbed environment (TERM, LANG, RUST_BACKTRACE, NO_COLOR, extra variables); oracle: per-file text and per-file files-mode bytes equal the single-file results, the exit status is the maximum of the single-file statuses, repeated runs are byte-identical; non-trivial = the set mixes a failing and an unformatted file, or has two different local configurations; distinct by case content"
+        "(A, one third of the cases) generated sets of 1..5 source files (unformatted, formatted, failing to parse, comment-only) in a directory layout with 0..3 local rustfmt.toml files (sibling directories and a directory nested below another one that has its own configuration); the real binary runs (a) on every file alone (stdout and files mode) as the reference, (b) on every order of the files on one command line (all permutations up to 24), (c) twice with the same command, (d) with the source on standard input from the file's directory, (e) from another working directory with absolute paths and with a perturbed environment (TERM, LANG, RUST_BACKTRACE, NO_COLOR, extra variables); oracle: per-file text and per-file files-mode bytes equal the single-file results, the exit status is the maximum of the single-file statuses, repeated runs are byte-identical; (B, two thirds) 2..5 inputs formatted one after the other in ONE API Session in every order, some under Session::override_config with a local configuration: text and report entries of every input equal those of a session of its own and the session's summary flags after each step are the OR of the single-session flags; non-trivial = the set mixes a failing and an unformatted file, or has two different local configurations; distinct by case content"
     }
     fn generate(&self, c: &mut Choices<'_>, _g: &GenCtx) -> Value {
+        if c.chance(2, 3) {
+            // one API session, several inputs, some under a local configuration
+            let n = 2 + c.below(4);
+            let steps: Vec<Value> = (0..n)
+                .map(|_| {
+                    let local = if c.chance(1, 3) { Some(*c.pick(API_LOCALS)) } else { None };
+                    json!({"src": *c.pick(SOURCES), "local": local})
+                })
+                .collect();
+            let base = *c.pick(API_LOCALS);
+            return json!({"kind": "api-session", "steps": steps, "base": if c.flip() { Some(base) } else { None }, "diagnostics": c.flip()});
+        }
         let n = 1 + c.below(5);
         let mut files: Vec<F> = vec![];
         let mut configs: Vec<F> = vec![];
@@ -135,6 +209,9 @@ impl Property for C15 {
         json!({"files": files, "configs": configs})
     }
     fn run(&self, case: &Value, r: &RunCtx) -> Outcome {
+        if case["kind"].as_str() == Some("api-session") {
+            return run_api_session(case);
+        }
         let (Ok(files), Ok(configs)) = (serde_json::from_value::<Vec<F>>(case["files"].clone()), serde_json::from_value::<Vec<F>>(case["configs"].clone())) else {
             return Outcome::skip("bad-case");
         };
